@@ -21,6 +21,12 @@ CLAIMED = {
  "C01": dict(cat="proof", tech="modular contracts with a ghost call trace; loop invariants over symbolic-length model lists (z3 sequences + recursive spec functions)",
    text="Chain of contracts proved function by function on the real source: ModelFunction.__call__ invokes the user function once with the detector and exactly the configured arguments; ModelGroup.__iter__ yields the enabled models in list order (loop invariant over a symbolic list); ModelGroup.run appends exactly their events to the ghost TRACE, debug on or off, and lets a model's exception escape unchanged; Processor.run_pipeline yields TRACE' = TRACE ++ expected(pipeline) for the group order written in the STATEMENT, for arbitrary presence/absence of the ten groups (generic-index loop proof); DetectionPipeline.__init__ binds every group to its own list; to_pipeline builds the same groups for any key order; models are invoked from nowhere else (call-graph obligations).",
    note="Trusted: **mapping semantics, logging dropped, the xarray bookkeeping of the debug block (abstract block; model calls inside it are executed). call.args and yaml.to_pipeline are bounded in the number of arguments (0..3) / models per group (0..2); every other obligation is unbounded.", ref="6 (C01)"),
+ "C02": dict(cat="proof", tech="contracts + loop invariant over a symbolic number of readouts on exposure.run_pipeline (real source), callee contracts for the pipeline run, z3",
+   text="ReadoutProperties.__init__ is proved to accept only valid schedules and to compute steps[i] = times[i] - (times[i-1] | start). exposure.run_pipeline is executed symbolically with the real Detector/bucket classes, arbitrary prior bucket contents, both readout modes and a symbolic number of steps: at the call of the pipeline in a generic step i the clock fields, first/last flags, freshness of scene, emptiness of photon/signal/image, zeroed charge and the pixel rule (zero if destructive or i == 0, else exactly the content left by step i-1) are obligations; exactly n pipeline runs; invalid schedules raise before any run; the function raises only a model's exception.",
+   note="Trusted: model contract (models change buckets arbitrarily, not the clock); xarray result assembly is a boundary; real arithmetic for one subtraction per step; Readout.__init__ (textual ranges, files) goes through eval/load_table boundaries and is not covered.", ref="6 (C02), App. D"),
+ "C09": dict(cat="proof", tech="exception-identity contracts along the call chain (symbolic execution with exceptions as first-class outcomes), handler-shape obligations for dask/pygmo boundaries",
+   text="The model call may raise an arbitrary exception object e; ModelGroup.run, Processor.run_pipeline, exposure.run_pipeline and Observation._run_single_pipeline are each proved to let exactly that object escape (reference equality), with a note naming group and model resp. one note per (key, value) of the failing run, and with the ghost trace being a prefix (no later model executed). Every handler around a pipeline call in the running modes, calibration fitness and the dask/pygmo wrappers must end in a bare raise; evolve() is followed by wait_check() before results are read.",
+   note="Trusted: dask re-raises at compute time, pygmo wait_check re-raises (external); notes.parameters proved for 0..2 swept parameters (bounded in that dimension).", ref="6 (C09)"),
 }
 PENDING_REASON = "check not built yet in this session (planned in DESIGN.md section 6); not claimed until its obligations are generated from the real code"
 def main():
